@@ -475,4 +475,49 @@ example : hybridCols Gen.AtomStyles.atomStyles ["sphere", "peri", "charge", "dip
       |>.map fun x => ⟨x.1.1, x.1.2, x.2⟩) := by
   decide +kernel
 
+/-! ## dump file: scaled position columns -/
+
+theorem det_header_ne_zero (b : Box ℚ) (hn : b.isLammpsNorm = true) (lf : Option ℚ) (hlf : ∀ c, lf = some c → c ≠ 0) :
+    M3.det (boxOfHiLo ((hiLoOf b).map (divBy lf))).vects ≠ 0 := by
+  obtain ⟨h1, h2, h3, h4, h5, h6⟩ := norm_facts b hn
+  obtain ⟨⟨⟨ax, ay, az⟩, ⟨bx, by', bz⟩, ⟨cx, cy, cz⟩⟩, ⟨ox, oy, oz⟩⟩ := b
+  simp only at h1 h2 h3 h4 h5 h6
+  have hax : ax ≠ 0 := ne_of_gt h4
+  have hby : by' ≠ 0 := ne_of_gt h5
+  have hcz : cz ≠ 0 := ne_of_gt h6
+  cases lf with
+  | none =>
+    simp only [boxOfHiLo, hiLoOf, HiLo.map, divBy, M3.det, V3.dot, V3.cross, add_sub_cancel_left]
+    have : ax * (by' * cz) ≠ 0 := mul_ne_zero hax (mul_ne_zero hby hcz)
+    intro h; apply this; linarith
+  | some c =>
+    have hc := hlf c rfl
+    simp only [boxOfHiLo, hiLoOf, HiLo.map, divBy, M3.det, V3.dot, V3.cross]
+    have : ax * (by' * cz) / (c * c * c) ≠ 0 := div_ne_zero (mul_ne_zero hax (mul_ne_zero hby hcz)) (by positivity)
+    intro h; apply this
+    rw [← h]; field_simp; ring
+
+/-- **dump_scaled_cells**: the cells the writers put into a scaled position column (`spos` → `xs ys zs`, `supos` →
+    `xsu ysu zsu`) of atom `k` are the relative coordinates of its position in the system's cell. -/
+theorem dump_scaled_cells (s : Sys) (u : Units) (ids : List Int) (pos : List (V3 Rat)) (prop : String)
+    (hp : prop = "spos" ∨ prop = "supos") (n1 n2 n3 : String) (us : UnitSpec) (k : Nat) (p : V3 Rat)
+    (hk : pos[k]? = some p) :
+    propCells s u ids pos ⟨prop, [n1, n2, n3], us⟩ k =
+      .ok [.num (s.box.cartToRel p).x, .num (s.box.cartToRel p).y, .num (s.box.cartToRel p).z] := by
+  rcases hp with rfl | rfl <;> simp [propCells, isPosLike, hk] <;> rfl
+
+/-- **dump_scaled_unscale**: those relative coordinates, unscaled with the cell an independent reader rebuilds from
+    the written header (`boxOfHiLo` of the `xlo … yz` the inverse bounding-box map `dump_bbox` recovers, in the
+    requested length unit), are the atom's position in the requested length unit — for every LAMMPS-normal cell,
+    tilted or not, any origin. -/
+theorem dump_scaled_unscale (b : Box ℚ) (hn : b.isLammpsNorm = true) (lf : Option ℚ) (hlf : ∀ c, lf = some c → c ≠ 0)
+    (p : V3 ℚ) :
+    (boxOfHiLo ((hiLoOf b).map (divBy lf))).relToCart (b.cartToRel p) = v3map (divBy lf) p := by
+  rw [← cartToRel_header b hn lf hlf p]
+  exact C05.relToCart_cartToRel _ (det_header_ne_zero b hn lf hlf) _
+
+example : (boxOfHiLo ((hiLoOf ⟨⟨⟨4, 0, 0⟩, ⟨2, 4, 0⟩, ⟨0, 1, 4⟩⟩, ⟨1, 0, -1⟩⟩).map (divBy (some 10)))).relToCart
+    ((⟨⟨⟨4, 0, 0⟩, ⟨2, 4, 0⟩, ⟨0, 1, 4⟩⟩, ⟨1, 0, -1⟩⟩ : Box ℚ).cartToRel ⟨3, 2, 1⟩) = ⟨3 / 10, 2 / 10, 1 / 10⟩ := by
+  decide +kernel
+
 end Atomman.C07
